@@ -31,6 +31,7 @@ type c10Case struct {
 	Others   []string            `json:"others,omitempty"`   // web: requests served before / concurrently
 	Profile2 string              `json:"profile2,omitempty"` // web: a second (small) and a third (large) profile for
 	Profile3 string              `json:"profile3,omitempty"` //      sessions living in the same process
+	RealObj  bool                `json:"real_obj,omitempty"` // the profile's mapping is a real ELF binary of the tree under test; default ObjTool
 	Refs     map[string][]string `json:"refs,omitempty"`     // web: fresh-process references (filled in by the parent)
 	Flags    map[string]string   `json:"flags,omitempty"`    // web: process options without URL parameter (command-line flags)
 	Phase    string              `json:"phase,omitempty"`    // web: "seq" | "conc" | "" (both)
@@ -213,6 +214,9 @@ func c10CaseDir(cs *c10Case) (string, *profile.Profile, error) {
 	}
 	os.WriteFile(filepath.Join(dir, "prof.pb.gz"), buf.Bytes(), 0o644)
 	os.MkdirAll(filepath.Join(dir, "nopath"), 0o755)
+	if cs.RealObj {
+		os.WriteFile(filepath.Join(dir, "use-system-tools"), nil, 0o644)
+	}
 	for name, text := range c10SourceTrees(p) {
 		f := filepath.Join(dir, name)
 		os.MkdirAll(filepath.Dir(f), 0o755)
@@ -622,7 +626,7 @@ func c10Fold(c *Ctx, cs *c10Case, m *c10Model, o *c10Outcome, shrink bool) {
 // ---- runner ----
 
 func runC10(c *Ctx) {
-	c.Res.Rule = "interactive, two script streams on generated profiles (labels, inlining, 1-4 sample types, multi-component absolute file names /build/remote/checkout/proj/src/<pkg>/<file>.go, seven scratch source trees whose basenames are / are not components of those names): (a) ~55% free-form scripts (output file names are reused across commands and shared with output=; user-named files persist between lines and a line's files are those it wrote, byte for byte); (c) 10% file-reuse scripts (long report then short report into the same file, via >file or output=, same command twice); (a cont.) — 50% report commands with focus/ignore/count/-cum/>file arguments, 30% assignments of every option incl. invalid values, shortcuts, built-ins, junk; (b) 40% toggle scripts — ONE option (40% source_path/trim_path, else any of the 31 content-relevant options) re-assigned to 2-3 different output-changing values, v1 v2 v3 v1 …, with the same file-/value-sensitive probe command after every re-assignment (list, weblist, top/tree/dot at file or line granularity, traces, tags, callgrind …) and noise reports in between. Real pprof binary, one process per session; every probed line's transcript+files is compared with a fresh session replaying only the assignment lines before it; the Lean model classifies the lines, predicts the options shown by `o` and what each command's arguments contribute (desugared reference). web: each case in five child processes (ref / seq / conc / stall / multi), non-URL options as flags, every 4th profile large enough for pages > 64 KiB: references from a process that serves only the probed requests; r after other requests; the first 12 page renders of a process simultaneously, then r alone, then r among the others; responses still being written to a stalling slow-client ResponseWriter while other URLs are rendered (GOMAXPROCS=1 and N); three sessions over different profiles (A, small B, large C) alive in one process with interleaved requests, each answer vs that profile's fresh-process answer. non-trivial = at least one compared probe is preceded by an executed report command (interactive) / by ≥1 other view request with filter parameters (web); distinct by script text"
+	c.Res.Rule = "interactive, two script streams on generated profiles (labels, inlining, 1-4 sample types, multi-component absolute file names /build/remote/checkout/proj/src/<pkg>/<file>.go, seven scratch source trees whose basenames are / are not components of those names): (a) ~55% free-form scripts (output file names are reused across commands and shared with output=; user-named files persist between lines and a line's files are those it wrote, byte for byte); (c) 10% file-reuse scripts (long report then short report into the same file, via >file or output=, same command twice); (a cont.) — 50% report commands with focus/ignore/count/-cum/>file arguments, 30% assignments of every option incl. invalid values, shortcuts, built-ins, junk; (b) 40% toggle scripts — ONE option (40% source_path/trim_path, else any of the 31 content-relevant options) re-assigned to 2-3 different output-changing values, v1 v2 v3 v1 …, with the same file-/value-sensitive probe command after every re-assignment (list, weblist, top/tree/dot at file or line granularity, traces, tags, callgrind …) and noise reports in between. Real pprof binary, one process per session; every probed line's transcript+files is compared with a fresh session replaying only the assignment lines before it; the Lean model classifies the lines, predicts the options shown by `o` and what each command's arguments contribute (desugared reference). real-binary stream (3 scripts + 2 web cases per quick run): sample.bin/sample.cpu of the tree with the default binutils ObjTool, list/weblist/disasm and /source,/disasm repeated within one session/process; web: each case in five child processes (ref / seq / conc / stall / multi), non-URL options as flags, every 4th profile large enough for pages > 64 KiB: references from a process that serves only the probed requests; r after other requests; the first 12 page renders of a process simultaneously, then r alone, then r among the others; responses still being written to a stalling slow-client ResponseWriter while other URLs are rendered (GOMAXPROCS=1 and N); three sessions over different profiles (A, small B, large C) alive in one process with interleaved requests, each answer vs that profile's fresh-process answer. non-trivial = at least one compared probe is preceded by an executed report command (interactive) / by ≥1 other view request with filter parameters (web); distinct by script text"
 	if c.Replay != "" {
 		var cs c10Case
 		if err := c.LoadReplay(&cs); err != nil {
@@ -696,6 +700,25 @@ func runC10(c *Ctx) {
 		}
 		jobs[i] = &job{cs: cs, m: m}
 	}
+	// real-binary stream: the tree's own sample.bin/sample.cpu pair with the default ObjTool
+	realHex, realWhy := c10RealProfile()
+	if realHex == "" {
+		c.Res.Hit("real-binary-stream-skipped")
+		c.Res.Notes = append(c.Res.Notes, "real-binary stream skipped: "+realWhy)
+	} else {
+		for k := 0; k < 3*c.Scale; k++ {
+			lines := c10RealScript(r)
+			cs := &c10Case{Kind: "interactive", Profile: realHex, RealObj: true, Lines: lines}
+			m := c10AskModel(c, c10MustProfile(realHex), lines)
+			for j := len(lines) - 1; j >= 0 && len(cs.Probes) < 8; j-- {
+				if lines[j].Intent == "command" {
+					cs.Probes = append(cs.Probes, j)
+				}
+			}
+			jobs = append(jobs, &job{cs: cs, m: m})
+			c.Res.Hit("real-binary-script")
+		}
+	}
 	var wg sync.WaitGroup
 	var confirmed sync.Map
 	sem := make(chan struct{}, 16)
@@ -748,6 +771,15 @@ func runC10(c *Ctx) {
 			cs.Others = append(cs.Others, r.c10WebRequest(c10Types(p)))
 		}
 		wcases[i] = cs
+	}
+	if realHex != "" {
+		for k := 0; k < 2*c.Scale; k++ {
+			cs := &c10Case{Kind: "web", Profile: realHex, RealObj: true}
+			cs.Request, cs.Others = c10RealWebRequests(r)
+			wcases = append(wcases, cs)
+			c.Res.Hit("real-binary-web-case")
+		}
+		nw = len(wcases)
 	}
 	outs := make([][]c10WebOut, nw)
 	for i, cs := range wcases {
@@ -866,7 +898,11 @@ func c10WebChild(c *Ctx, cs *c10Case) (*Result, string) {
 		args = append(args, "-drv", c.Drv.cmd.Path)
 	}
 	cmd := exec.Command(self, args...)
-	cmd.Env = append(os.Environ(), "C10_CHILD=1", "XDG_CONFIG_HOME="+filepath.Join(dir, "cfg"), "HOME="+dir, "PATH="+filepath.Join(dir, "nopath"))
+	path := filepath.Join(dir, "nopath")
+	if cs.RealObj {
+		path = "/usr/bin:/bin"
+	}
+	cmd.Env = append(os.Environ(), "C10_CHILD=1", "XDG_CONFIG_HOME="+filepath.Join(dir, "cfg"), "HOME="+dir, "PATH="+path)
 	outb, err := cmd.CombinedOutput()
 	rb, rerr := os.ReadFile(of)
 	if rerr != nil {
